@@ -1814,7 +1814,7 @@ def make_variant(c, rng):
         if x[0] == "op":
             for a in x[2]:
                 last_use[a] = i
-        elif x[0] in ("backward", "grad"):
+        elif x[0] in ("backward", "grad", "tracked", "untracked", "start", "stop", "obs", "clone"):
             last_use[x[1]] = i
     leaves = set(c["leaves"])
     out = []
@@ -1849,6 +1849,8 @@ def make_variant(c, rng):
             if rng.random() < 0.4:
                 hdl = emit(("clone", hdl))
             grads[x[1]] = emit(("grad", hdl))
+        elif x[0] in ("tracked", "untracked", "start", "stop", "obs", "clone"):
+            m[i] = emit((x[0], m[x[1]]))
         else:
             m[i] = emit(x)
     v = case("variant", out, "variant")
@@ -1864,8 +1866,29 @@ def gen_C12(tier, rng):
         exact = n % 3 != 2
         b = randprog.Builder(rng, exact=exact, max_rank=rng.choice([2, 3]))
         root = b.build(rng.randint(2, 10))
-        c = graph_case("base", b, root, b.seed_for(root), "base:%s" % ("exact" if exact else "float"),
+        flagged = n % 2 == 1
+        if flagged:
+            # handles whose two flags are driven apart before the pass: a frozen result (stop_tracking) or a
+            # transient one (untracked, then start_tracking); the pass may start from such a handle
+            ops_ = [v for v in b.vars.values() if v.is_op and v.live]
+            for v in rng.sample(ops_, min(len(ops_), rng.randint(1, 2))):
+                if rng.random() < 0.5:
+                    b.emit(("stop", v.idx))
+                else:
+                    b.emit(("untracked", v.idx))
+                    b.emit(("start", v.idx))
+            if ops_ and rng.random() < 0.6:
+                root = rng.choice(ops_)
+        c = graph_case("base", b, root, b.seed_for(root), "base:%s%s" % ("exact" if exact else "float",
+                                                                         ":flags" if flagged else ""),
                        **({} if exact else {"rtol": 1e-7}))
+        if flagged:
+            # gradients of the operation handles are part of the comparison too
+            for v in [v for v in b.vars.values() if v.is_op and v.live]:
+                c["instrs"].append(("grad", v.idx))
+                c["grads"][v.idx] = len(c["instrs"]) - 1
+                c["adjudicate"].append(len(c["instrs"]) - 1)
+                c.setdefault("lenient", []).append(len(c["instrs"]) - 1)
         c["group"] = n + 1
         c["role"] = "base"
         c["grads_by_leaf"] = dict(c["grads"])
